@@ -176,6 +176,37 @@ def quiet():
             yield
 
 
+class CallTimeout(Exception):
+    pass
+
+
+HANG_SECONDS = 240
+
+
+@contextlib.contextmanager
+def watchdog(name):
+    """safety net against non-terminating symbolic routines (sympy dsolve/solve, rejection sampling): a call running
+    longer than HANG_SECONDS is abandoned and counted as class timeout:<fn> -- the known offenders are excluded by
+    domain guards in the API table, so this does not trigger in normal operation"""
+    import signal
+    import threading
+
+    if threading.current_thread() is not threading.main_thread() or not hasattr(signal, 'SIGALRM'):
+        yield
+        return
+
+    def handler(signum, frame):
+        raise CallTimeout(name)
+
+    old = signal.signal(signal.SIGALRM, handler)
+    signal.alarm(HANG_SECONDS)
+    try:
+        yield
+    finally:
+        signal.alarm(0)
+        signal.signal(signal.SIGALRM, old)
+
+
 def reseed():
     import random
 
@@ -419,6 +450,8 @@ class Step:
         self.results = []
         self.kw = ''
         self.pairs = []
+        self.timeout = False
+        self.code_refused = False
 
 
 def judged_call(M, name, ints, twice, col: Collector, evals, mode='api'):
@@ -455,7 +488,7 @@ def judged_call(M, name, ints, twice, col: Collector, evals, mode='api'):
 
     def call():
         reseed()
-        with quiet():
+        with quiet(), watchdog(name):
             r = fn(M, **kwargs)
             if entry.consume:
                 r = list(itertools.islice(iter(r), entry.consume))
@@ -465,6 +498,9 @@ def judged_call(M, name, ints, twice, col: Collector, evals, mode='api'):
     try:
         result = call()
         stp.returned = True
+    except CallTimeout:
+        stp.exc = 'timeout'
+        stp.timeout = True
     except Exception as e:  # anything: refusals and internal errors are not C06's business
         stp.exc = type(e).__name__
     evals[0] += 1
@@ -518,13 +554,15 @@ def _judge_results(M, name, stp, res_models, k0, col, evals):
         # generated code
         U = None
         try:
-            with quiet():
+            with quiet(), watchdog('update_source'):
                 U = R.update_source()
                 code = U.code
             if not isinstance(code, str):
                 col.add(f'ill-formed-result:{name}:code:not-a-string', observed=type(code).__name__)
         except documented():
-            pass
+            stp.code_refused = True
+        except CallTimeout:
+            stp.timeout = True
         except Exception as e:
             where = innermost_pharmpy_frame(e)
             if where == 'outside-pharmpy':
@@ -636,6 +674,8 @@ def _run(spec, mode):
         argdig.update(stp.kw.encode())
         if stp.returned:
             classes.append(f'ret:{name}')
+            if stp.code_refused:
+                classes.append('code-refused-with-documented-error')
             if stp.changed:
                 classes.append(f'chg:{name}')
                 if mode == 'api':
@@ -646,10 +686,14 @@ def _run(spec, mode):
                     nontrivial = True  # the implication a == b => hash(a) == hash(b) was not vacuous
         else:
             classes.append(f'exc:{name}')
+            if stp.timeout:
+                classes.append(f'timeout:{name}')
         if col.items:
             break
         if stp.results:
             M = stp.results[0]
+    if os.path.isdir(SCRATCH):  # files written by write_model / write_csv / write_files / context round trip
+        shutil.rmtree(SCRATCH, ignore_errors=True)
     col.finish()
     classes.append(f'start:{start}')
     classes.append(f'chain-length:{len(chain)}')
@@ -676,9 +720,18 @@ def enumerate_api(tier):
     names = api_table.names()
     nstart = len(start_names())
     reps = 5 if tier == 'quick' else 40
+    tnames = api_table.transform_names()
     for j in range(reps):
-        for fi, _ in enumerate(names):
-            yield dict(m=(fi * 5 + j * 7 + j // nstart) % nstart, steps=[[fi, _lcg(fi * 1000 + j, 8)]], twice=(j % 2 == 0))
+        for fi, n in enumerate(names):
+            m = (fi * 5 + j * 7 + j // nstart) % nstart
+            steps = [[fi, _lcg(fi * 1000 + j, 8)]]
+            pref = api_table.PREFER.get(n)
+            if pref and j % 5 < 3:  # three draws out of five where the function has something to do
+                if 'starts' in pref:
+                    m = pref['starts'][j % len(pref['starts'])]
+                if 'pre' in pref:
+                    steps = [[tnames.index(pref['pre']), _lcg(fi * 1000 + j + 500, 8)]] + steps
+            yield dict(m=m, steps=steps, twice=(j % 2 == 0))
 
 
 def enumerate_eq(tier):
@@ -693,8 +746,8 @@ def enumerate_eq(tier):
 
 
 SUBCHECKS = [
-    SubCheck('api', lambda: SPEC, run_api, quick=1500, thorough=40000, enumerate=enumerate_api, quick_time=100.0, thorough_time=1100.0),
-    SubCheck('eqhash', lambda: SPEC, run_eq, quick=300, thorough=8000, enumerate=enumerate_eq, quick_time=100.0, thorough_time=1100.0),
+    SubCheck('api', lambda: SPEC, run_api, quick=1200, thorough=40000, enumerate=enumerate_api, quick_time=100.0, thorough_time=1100.0),
+    SubCheck('eqhash', lambda: SPEC, run_eq, quick=250, thorough=8000, enumerate=enumerate_eq, quick_time=100.0, thorough_time=1100.0),
 ]
 
 def chain_names(spec):
